@@ -182,3 +182,14 @@ P["C20"]["st_any"] = _both(_fields("cnt", [5]), _fields("conn", [2]))         # 
 # the ORDER half of C18 on a model of delivery (direct replies, per-connection queues, the drain of the repair 65df214):
 # result_order, sender_receiver_fifo, nothing_lost, old_server_reorders (Irc/Deliver.lean, Irc/Props/C18Order*.lean)
 P["C18"]["extra_modules"] = P["C18"]["extra_modules"] + ["Irc.Props.C18Order"]
+# C05: the unwraps of the fan-out loops rely on "every name in a rank list / the WALLOPS set / a member map is a registered user"
+# (Inv I2/I3/I5); a divergence of these components is reported for C05 when it happens, not only when a later message trips over it
+P["C05"]["st_any"] = _both(st_kinds({"member", "wallops"}), _fields("chan", [2, 11, 12, 13, 14, 15]), _fields("user", [2, 9]))
+# "any other traffic on the connection in the meantime": no command but the connection's own PONG touches the keep-alive flag
+# (keepalive_frame, pong_clears, pending_iff_last_event; Irc/Props/C17Traffic*.lean)
+P["C17"].setdefault("extra_modules", [])
+P["C17"]["extra_modules"] = P["C17"]["extra_modules"] + ["Irc.Props.C17Traffic"]
+# C01 "every order in which the receiving connections drain their queues": on the delivery model every interleaving of drain
+# events gives each receiver exactly the copies queued for it, once, in push order (nothing_lost, sender_receiver_fifo)
+P["C01"].setdefault("extra_modules", [])
+P["C01"]["extra_modules"] = P["C01"]["extra_modules"] + ["Irc.Props.C18Order"]
